@@ -14,10 +14,13 @@ from .common import hx
 RULE = (
 	'Merkle: leaf counts 0..130, 255..258, 1023..1025, 4095..4097 (thorough: plus random counts up to 5000) with random 32-byte leaves '
 	'from VERIF_SEED; 32 positions per count incl. first/last/neighbours (thorough: every position); for each position the honest audit '
-	'path and single-bit corruptions of leaf, path element, side flag and root. Patricia: every canonical tree over <= 4 keys of 2 nibbles '
-	'from a 3-letter alphabet with 2 values, random canonical trees over keys of 4, 6 and 64 nibbles, random non-canonical trees; for each '
-	'tree every present key, every absent key of the universe, every truncation of the honest proof and single corruptions (state hash, '
-	'roots, node path byte, link bit, leaf value, key nibble, value), the wire form and its truncations. Transactions: every descriptor of '
+	'path and single-bit corruptions of leaf, path element, side flag and root, a dropped and an extra path element. Patricia: canonical '
+	'trees over <= 4 keys of 2 nibbles from the alphabet {0,1,F} with values from a pool of 2 (thorough: all of them; quick: all with <= 2 keys '
+	'and a sample of the rest), random canonical trees over keys of 4, 6 and 64 nibbles (thorough: up to 6 keys), random non-canonical trees; '
+	'for each tree every present key, every absent key of the universe, every truncation of the honest proof and single corruptions (state '
+	'hash, roots, node path bit, link bit, leaf value, key nibble, tested value, dropped node), the wire form, its truncations and byte '
+	'replacements, random malformed proofs and buffers. The verdict expected is the one the tree implies (positions known by construction, '
+	'never found by hash search). Transactions: every descriptor of '
 	'/repo/sdk/python/examples/descriptors (Symbol and NEM) plus aggregates (complete/bonded, v1-v2, 0-3 cosignatures, 0-5 embedded), '
 	'signed; single-bit flips at every field class (covered/uncovered) of the serialized bytes. A case is distinct by its '
 	'(operation, arguments) tuple; non-trivial = it reached the implementation and the oracle (and the model when the driver runs).')
@@ -1349,18 +1352,23 @@ def replay(ctx, payload):
 
 MANIFEST = {
 	'level_text': (
-		'Every clause is a Lean theorem over the models, for all inputs and any hash function: hash_symbol_def, hash_ignores_cosignatures, '
-		'hash_covers, hash_nem_def; merkle_final_eq_spec (the in-place loop of MerkleHashBuilder.final equals the textbook root for every '
-		'leaf list, by induction on the loop invariant; termination of both loops by explicit measures), root_nil, root_singleton, '
-		'embedded_hash_def, prove_complete, prove_sound_or_collision; Patricia: deserialize_serialize, encodePath_toPath, and the verdict '
-		'theorems (positive, value mismatch, dead end, inconclusive truncation, state hash, unanchored, unlinked, wrong key). The models are '
-		'tied to Merkle.py / SymbolFacade.py / NemFacade.py / BufferReader.py by a differential run on generated inputs and by constants '
-		're-read from the source on every run (source_constants_tied).'),
+		'Every clause is a Lean theorem over the models, for all inputs and any hash function: hash_symbol_def, window_plain/aggregate/short, '
+		'hash_ignores_cosignatures, hash_preimage_injective, hash_covers, hash_nem_def, hash_nem_ignores_signature; merkle_final_eq_spec (the '
+		'in-place loop of MerkleHashBuilder.final, with its num_remaining_hashes += 1 step, equals the textbook root for every leaf list, by '
+		'induction on the loop invariant; both loops are defined by well-founded recursion on the measures n - i and n), root_empty, root_single, '
+		'embedded_hash_def, prove_complete, audit_path_shape, prove_sound_or_collision, prove_iff_honest_or_collision; Patricia: encode_path_def, '
+		'deserialize_serialize, deserialize_guard_unreachable and the verdict theorems verdict_state_hash, verdict_unanchored, '
+		'verdict_leaf_value_mismatch, verdict_wrong_value, verdict_unlinked, verdict_wrong_key (full) and verdict_positive_partial, '
+		'verdict_dead_end_partial, verdict_inconclusive_partial, verdict_truncated_partial (with the explicit hypotheses IndexOK and EmptyAbove), '
+		'plus defect_index_before_branch_path and defect_equal_sibling_hashes, which show for every hash function that the unrestricted positive '
+		'statement is false of the code. The models are tied to Merkle.py / SymbolFacade.py / NemFacade.py / BufferReader.py by a differential '
+		'run on generated inputs and by constants re-read from the source on every run (source_constants_tied).'),
 	'level_note': (
 		'Trusted: Lean kernel + {propext, Classical.choice, Quot.sound}; hand-written models tied by differential execution only; SHA3-256 / '
-		'Keccak-256 are parameters (soundness statements are reductions to an explicit hash collision, and assume a fixed digest length); the '
-		'positive Patricia verdict carries the explicit hypothesis that no earlier sibling link equals the chosen child hash (the verifier uses '
-		'links.index; the excluded point is run on the real code and is a recorded finding); facades run on pure-Python stand-ins for '
-		'sha3/cryptography/nacl/ripemd.'),
+		'Keccak-256 are parameters (soundness statements are reductions to an explicit hash collision and assume a fixed digest length). The '
+		'positive/negative/inconclusive Patricia verdict theorems are _partial: they assume that no earlier sibling link equals the chosen child '
+		'hash (the verifier uses links.index) and that every branch left through a link has an empty path (the verifier writes the link nibble '
+		'before the branch path); both excluded points are run on the real code, fail there and are recorded in known_findings.jsonl. Facades run '
+		'on pure-Python stand-ins for sha3/cryptography/nacl/ripemd; the Patricia wire writer is the inverse of the SDK reader (the SDK has none).'),
 	'technique': 'Lean 4 theorems over hand-written models + differential correspondence with the Python implementation',
 }
